@@ -144,7 +144,7 @@ def generate_internal_leaves(env, version, max_loop=2):
             # emit_and_process appends (C11 P3: exactly one opcode) and may fail
             n = Sym("emitted_len", (), "usize", 1, 1 << 20, attrs={"name": "emitted_len"})
             h.out.writes.append(("opaque_emission", a[1]))
-            h.out.cur_len = I.binop("Add", h.out.cur_len, n, "usize")
+            h.out._add_len(I, n)
             c = I.run.choose(2, "emit_and_process ok")
             return ok(unit()) if c == 0 else err(Opaque("eyre::Report"))
 
@@ -152,7 +152,7 @@ def generate_internal_leaves(env, version, max_loop=2):
             I.run.event("call", "cleanup_for_stop", h.out.cur_len, len(h.out.writes))
             n = Sym("cleanup_len", (), "usize", 0, 1 << 20, attrs={"name": "cleanup_len"})
             h.out.writes.append(("opaque_cleanup",))
-            h.out.cur_len = I.binop("Add", h.out.cur_len, n, "usize")
+            h.out._add_len(I, n)
             return unit()
         I = Interp(prog, run, mods, stubs={k_valid: st_valid, k_choice: st_choice, k_emit: st_emit, k_clean: st_clean},
                    loop_limit=max_loop + 1)
